@@ -453,6 +453,109 @@ def _strictly_positive(eng, key, table_lower):
     return None
 
 
+def rule_recorded_best_is_the_selection(eng, rep, rule="C18-4b.recorded-best-point-is-the-final-selection"):
+    """'The recorded best objective never increases' is a statement about the better of the saved point and the incumbent (a soft restart saves the best point and then
+    moves the incumbent).  The columns xk / rk / fk must therefore record positions 0 / 1 / 2 of one Model.get_final_results() call, not the incumbent's accessors."""
+    si = eng.fn("diagnostic_info.DiagnosticInfo.save_info_from_control")
+    from .common import unrolled
+    from .c20 import _append_column
+    view, cfg = unrolled(eng, si)
+    want = {"xk": 0, "rk": 1, "fk": 2}
+    seen = {}
+    for st in view.body():
+        for node in ast.walk(st):
+            col = _append_column(node)
+            if col is None or col[0] not in want:
+                continue
+            name, val = col
+            inner = val.args[0] if isinstance(val, ast.Call) and val.args and ekey(val.func).split(".")[-1] in ("remove_scaling", "copy", "float") else val
+            if isinstance(val, ast.Call) and isinstance(val.func, ast.Attribute) and val.func.attr == "copy" and not val.args:
+                inner = val.func.value
+            okc = False
+            if isinstance(inner, ast.Name):
+                for dn in cfg.defs_reaching(eng.prog.stmt_of(node) if id(node) in getattr(eng.prog, "parent", {}) else st, inner.id) if False else cfg.defs_reaching(st, inner.id):
+                    ds = cfg.ast_of(dn)
+                    if isinstance(ds, ast.Assign) and isinstance(ds.targets[0], (ast.Tuple, ast.List)) and isinstance(ds.value, ast.Call) and id(ds.value) in eng.res.calls \
+                            and any(t.fid == "model.Model.get_final_results" for t in eng.res.calls[id(ds.value)].targets):
+                        names = assigned_names(ds.targets[0])
+                        okc = inner.id in names and names.index(inner.id) == want[name]
+                        seen[name] = dn
+            site = eng.where(si, st)
+            if okc:
+                rep.ok(rule, site, "column '%s' records position %d of get_final_results() (the better of saved point and incumbent)" % (name, want[name]))
+            else:
+                rep.bad(rule, site, "diagnostic_info|%s-not-from-final-selection" % name,
+                        "column '%s' records `%s`, not the point get_final_results() selects: after a soft restart has saved the best point and moved the incumbent the recorded best objective jumps up" % (name, short(val, 40)))
+    if len(set(seen.values())) > 1:
+        rep.bad(rule, eng.where(si), "diagnostic_info|xk-rk-fk-from-different-selections", "xk, rk and fk are taken from different get_final_results() calls")
+    rep.require_count(rule, "columns recording the best point", len(seen) if seen else 0, 0)
+
+
+def rule_one_row_per_iteration(eng, rep, rule="C18-4c.one-row-per-iteration"):
+    """Every call of the recorder in solve_main lies inside the main loop, and no path through one iteration passes two of them (counting data-flow, reset at the loop head)."""
+    A = anchors(eng)
+    sm = A.solve_main
+    cfg = eng.cfg(sm)
+    heads = [h for (h, kind, st) in cfg.loops if kind == "while"]
+    calls = [cfg.cfg_node(ci.node) for ci in eng.calls_in(sm) if any(t.fid == "diagnostic_info.DiagnosticInfo.save_info_from_control" for t in ci.targets)]
+    if len(heads) != 1 or not calls:
+        rep.unknown(rule, eng.where(sm), "main loop / recorder call not found in solve_main")
+        return
+    head = heads[0]
+    body = cfg.loop_nodes(head)
+    for c in calls:
+        site = eng.where(sm, cfg.ast_of(c))
+        if c not in body:
+            rep.bad(rule, site, "solver.solve_main|row-outside-the-main-loop", "the recorder is called outside the main loop: the table gets a row that belongs to no iteration (e.g. with a single interpolation point, iteration number 0 twice)")
+        else:
+            rep.ok(rule, site, "recorder call inside the main loop", nontrivial=False)
+
+    def node_fn(n, s):
+        if n == head:
+            return [0]
+        return [min(s + 1, 2)] if n in calls else [s]
+
+    fl = Flow(cfg, 0, node_fn)
+    twice = [c for c in calls if any(s >= 2 for s in fl.states(c))]       # state is recorded on entry: >= 1 on entry means a second row
+    twice = [c for c in calls if any(s >= 1 for s in fl.states(c))]
+    if twice:
+        rep.bad(rule, eng.where(sm, cfg.ast_of(twice[0])), "solver.solve_main|two-rows-in-one-iteration", "a path through one iteration of the main loop records two rows")
+    else:
+        rep.ok(rule, eng.where(sm), "no path through one iteration passes two recorder calls")
+    rep.require_count(rule, "recorder calls in solve_main", len(calls), 1)
+
+
+def rule_radii_not_reassigned_after_validation(eng, rep, rule="C18-8b.rhobeg-and-rhoend-are-not-changed-between-their-validation-and-the-first-run"):
+    """C18-8 starts from rhobeg > rhoend > 0, which solve validates.  That is worth nothing if either radius is re-assigned after the `rhobeg <= rhoend` row (e.g. a default
+    rhobeg shrunk to fit narrow bounds): the first run would start with rho = rhobeg < rhoend."""
+    A = anchors(eng)
+    solve = A.solve
+    cfg = eng.cfg(solve)
+    row = None
+    for n in cfg.nodes_of_kind("cond"):
+        at = atom_of(cfg.ast_of(n), True)
+        if at.op in ("le", "lt") and ekey(at.lhs) == "rhobeg" and ekey(at.rhs) == "rhoend":
+            row = n
+    first = [cfg.cfg_node(ci.node) for ci in A.solve_main_calls]
+    if row is None or not first:
+        rep.unknown(rule, eng.where(solve), "the `rhobeg <= rhoend` row / the solve_main calls were not found")
+        return
+    first = min(first)
+    bad = []
+    for n, d in cfg.g.nodes(data=True):
+        st = d["ast"]
+        if d["kind"] == "stmt" and isinstance(st, (ast.Assign, ast.AugAssign)):
+            names = []
+            for t in (st.targets if isinstance(st, ast.Assign) else [st.target]):
+                names += assigned_names(t)
+            if "rhobeg" in names and cfg.path_avoiding(row, n, []) is not None and cfg.path_avoiding(n, first, []) is not None:
+                bad.append(st)
+    if bad:
+        rep.bad(rule, eng.where(solve, bad[0]), "solver.solve|rhobeg-reassigned-after-validation", "`%s` changes rhobeg after `rhobeg > rhoend` was validated and before the first run: rho can start below rhoend" % short(bad[0], 60))
+    else:
+        rep.ok(rule, eng.where(solve), "rhobeg reaches the first run as validated")
+
+
 def rule_rhoend_single_source(eng, rep, rule="C18-5.one-source-of-truth-for-the-runs-rhoend"):
     """Controller.rhoend (read by reduce_rho) and solve_main's local rhoend (read by the rho > rhoend guards) must stay equal:
     every rescaling of one is mirrored, on every path, by the same rescaling of the other."""
@@ -720,6 +823,9 @@ def run(eng, rep):
     rule_table_shape(eng, rep)
     rule_rhoend_single_source(eng, rep)
     rule_rho_between_rhoend_and_rhobeg(eng, rep)
+    rule_radii_not_reassigned_after_validation(eng, rep)
+    rule_recorded_best_is_the_selection(eng, rep)
+    rule_one_row_per_iteration(eng, rep)
     from .mirrorrule import rule_mirror
     rule_mirror(eng, rep, 'C18-6.bound-test-of-the-rho-reduction-criterion-is-symmetric', ['controller.Controller.done_with_current_rho'])
     from .c10 import rule_nruns
